@@ -1,6 +1,6 @@
 (* C02 — no double spend or double resolution. *)
 From Coq Require Import ZArith List Bool.
-From Sia Require Import Prim.Result Prim.Tok Policy.Model Ledger.Types Ledger.Mid Ledger.Validate Ledger.Apply Ledger.Proofs.
+From Sia Require Import Prim.Result Prim.Tok Policy.Model Ledger.Types Ledger.Mid Ledger.Validate Ledger.Apply Ledger.Proofs Ledger.Spends.
 Import ListNotations.
 Open Scope Z_scope.
 
@@ -24,3 +24,26 @@ Theorem C02_accepted_is_live_leaf : forall s p, fst (mem_sc s p) = true ->
   p_proof_ok p = true /\ nth_error (s_leaves s) (Z.to_nat (p_leaf p)) = Some {| l_elem := ESC (p_val p); l_spent := false |}.
 Proof. exact mem_sc_sound. Qed.
 Print Assumptions C02_accepted_is_live_leaf.
+
+(* ---- across the transactions of a block ---- *)
+(* the MidState's spends map only grows while a transaction is applied, and every element the transaction consumes
+   (siacoin inputs, siafund inputs, resolved contracts) is entered *)
+Theorem C02_apply_enters_consumed : forall net s m t m', apply_txn2 net s m t = Ok m' ->
+  ext m m' /\ Forall (fun i => is_spent m' i = true) (sci_ids t ++ sfi_ids t ++ res_ids t).
+Proof. exact apply_txn2_spends. Qed.
+Print Assumptions C02_apply_enters_consumed.
+
+(* validation admits a transaction only if none of the elements it consumes is already entered and none occurs twice *)
+Theorem C02_validate_refuses_consumed : forall H net vt pt se sd s m t, validate_txn2 H net vt pt se sd s m t = Ok tt ->
+  Forall (fun i => is_spent m i = false) (sci_ids t) /\ NoDup (sci_ids t) /\
+  Forall (fun i => is_spent m i = false) (sfi_ids t) /\ NoDup (sfi_ids t) /\
+  Forall (fun i => is_spent m i = false) (res_ids t) /\ NoDup (res_ids t).
+Proof. exact validate_txn2_fresh. Qed.
+Print Assumptions C02_validate_refuses_consumed.
+
+(* hence an accepted block consumes no siacoin element, no siafund element and no v2 contract twice, over all of its
+   v2 transactions, in any order and any grouping *)
+Theorem C02_block_no_double_spend : forall H net vt pt se sd s b, validate_block H net vt pt se sd s b = Ok tt ->
+  NoDup (flat_map sci_ids (b_v2txns b)) /\ NoDup (flat_map sfi_ids (b_v2txns b)) /\ NoDup (flat_map res_ids (b_v2txns b)).
+Proof. exact v2_block_no_double_spend. Qed.
+Print Assumptions C02_block_no_double_spend.
